@@ -110,3 +110,72 @@ Definition converged (eeps seps : Q) (du r u1 s1 : list Q) (igrad iforce : list 
   negb (Qltb eeps (norm_inf du)) && negb (Qltb seps (norm_inf r)) &&
   forallb (fun c => Qltb (Qabs' (nth (fst c) u1 0 - snd c)) eeps) igrad &&
   forallb (fun c => Qltb (Qabs' (nth (fst c) s1 0 - snd c)) seps) iforce.
+
+(* ------------------------------------------------------------------ GenericSolver.cxx `iterate` (Newton branch: u1 not empty) *)
+(* One attempt of the Newton loop, without acceleration algorithm.  What the Study answers at the k-th pass of the while loop
+   (k = 0, 1, ...): success and time step scaling factor of computeStiffnessMatrixAndResidual, the correction du obtained
+   by LUSolve (for a stiffness equal to the identity du is the residual itself), the answer of checkConvergence. *)
+Record it_ans := mkAns { a_ok : bool; a_sf : Q; a_du : list Q; a_chk : bool }.
+Definition it_oracle := nat -> it_ans.
+
+(* result, time step scaling factor, u1, u10, number of passes (scs.iterations has been incremented that many times) *)
+Inductive it_res :=
+| ItOk (sf : Q) (u1 u10 : list Q) (niter : nat)
+| ItFail (sf : Q) (u1 u10 : list Q) (niter : nat).
+
+(* u - du; a correction shorter than u leaves the remaining unknowns unchanged (the default answer has an empty correction) *)
+Fixpoint vsub (a b : list Q) : list Q :=
+  match a, b with
+  | x :: a', y :: b' => (x - y) :: vsub a' b'
+  | _, [] => a
+  | [], _ => []
+  end.
+
+(* n = iterMax - iter passes are still allowed.  nopred: the prediction policy is NOPREDICTION (convergence is then refused at
+   the first pass). *)
+Fixpoint it_loop (n : nat) (nopred : bool) (orc : it_oracle) (iter : nat) (u1 u10 : list Q) : it_res :=
+  match n with
+  | O => ItOk 0 u1 u10 iter          (* iterMax = 0: the while loop is never entered (excluded by SchemeBase's setter) *)
+  | S n' =>
+      let a := orc iter in
+      let iter' := S iter in
+      if negb (a_ok a) then ItFail (a_sf a) u1 u10 iter'
+      else
+        let u1' := vsub u1 (a_du a) in
+        if (if nopred then Nat.ltb 1 iter' else true) && a_chk a then ItOk (a_sf a) u1' u10 iter'
+        else match n' with
+             | O => ItFail (a_sf a) u1' u10 iter'
+             | S _ => it_loop n' nopred orc iter' u1' u1'
+             end
+  end.
+
+Definition iterate (itmax : nat) (nopred : bool) (orc : it_oracle) (u : list Q) : it_res := it_loop itmax nopred orc 0 u u.
+
+(* the step oracle of the time loop obtained from per-attempt scripts of the Newton loop *)
+Definition nth_ans (l : list it_ans) : it_oracle := fun k => nth k l (mkAns true 1 [] true).
+Definition newton_oracle (itmax : nat) (nopred : bool) (scripts : list (list it_ans)) : oracle :=
+  fun k _ _ => match iterate itmax nopred (nth_ans (nth k scripts [])) [] with
+               | ItOk sf _ _ _ => (true, sf)
+               | ItFail sf _ _ _ => (false, sf)
+               end.
+
+(* ------------------------------------------------------------------ MTest_getErrorNorm / the norm part of checkConvergence with NaN *)
+(* a binary64 value as far as the max norm is concerned: a finite number or NaN (None); infinities are left to execution *)
+Definition fval := option Q.
+Definition fabs (x : fval) : fval := option_map Qabs' x.
+(* every ordered comparison with a NaN is false *)
+Definition flt (a b : fval) : bool := match a, b with Some x, Some y => Qltb x y | _, _ => false end.
+Definition isnan (a : fval) : bool := match a with None => true | Some _ => false end.
+(* std::max(a, b) = (a < b) ? b : a *)
+Definition std_max (a b : fval) : fval := if flt a b then b else a.
+(* as found in mtest/src/MTest.cxx: n = std::max(n, std::abs(v(i))) *)
+Definition norm_found (v : list fval) : fval := fold_left (fun n x => std_max n (fabs x)) v (Some 0).
+(* as repaired (PipeTest.cxx already reads so): a = |v(i)|; if ((a > n) || (a != a)) n = a; *)
+Definition norm_fixed (v : list fval) : fval :=
+  fold_left (fun n x => if flt n (fabs x) || isnan (fabs x) then fabs x else n) v (Some 0).
+(* MTest::checkConvergence: `if (!isfinite(ne) || !isfinite(nr)) return false; if ((ne > eeps) || (nr > seps)) return false;` *)
+Definition accept_norms (norm : list fval -> fval) (eeps seps : Q) (du r : list fval) : bool :=
+  match norm du, norm r with
+  | Some ne, Some nr => negb (Qltb eeps ne) && negb (Qltb seps nr)
+  | _, _ => false
+  end.
